@@ -67,7 +67,7 @@ class C17(CheckBase):
         return dd.Volume(label, b'EDGEVOL', 1, 0, total_field, files, origin, cat_at)
 
     def gen_case(self, rng, tier, index):
-        kind = rng.weighted([(5, 'opus'), (3, 'ssd2'), (3, 'dsd'), (3, 'mmb'), (2, 'ssd1'), (2, 'flux')])
+        kind = rng.weighted([(5, 'opus'), (3, 'ssd2'), (3, 'dsd'), (3, 'mmb'), (2, 'ssd1'), (2, 'flux'), (3, 'overclaim')])
         delta = rng.choice(DELTAS)
         short = rng.chance(0.2)
         for _ in range(40):
@@ -82,6 +82,38 @@ class C17(CheckBase):
         raise RuntimeError('cannot generate C17 case')
 
     def _gen(self, rng, kind, delta):
+        if kind == 'overclaim':
+            # a catalogue that claims more sectors than the surface it sits on has (total-sectors field, or the
+            # HDFS flag bit that adds 512), beside a populated neighbour: whole-surface commands must stop at the
+            # end of the surface
+            cont = rng.choice(['mmb', 'ssd2', 'dsd'])
+            geom = (80, 10) if cont == 'mmb' else rng.choice([(40, 10), (80, 10), (35, 10)])
+            n = geom[0] * geom[1]
+            how = rng.choice(['total', 'hdfs'])
+            surfaces = []
+            nsurf = 3 if cont == 'mmb' else 2
+            ts = rng.below(nsurf - 1) if cont != 'dsd' else rng.below(2)
+            for i in range(nsurf):
+                s = dd.gen_surface(rng, variant='acorn', geom=geom, img_id=6, side=i)
+                if i == ts:
+                    v = s.volumes[0]
+                    if how == 'total':
+                        v.total = min(1023, n + rng.choice([1, 2, 12, 100, 223]))
+                    else:
+                        v.total = rng.choice([300, 400, n - 512 + 12 if n > 512 else 300])
+                        v.title = (v.title or b'T') + b''
+                        if not v.title:
+                            v.title = b'T'
+                        s.post = {'262': [255, 8], '0': [255, 128]}
+                surfaces.append(s.to_json())
+            if cont == 'mmb':
+                base = rng.below(5)
+                slots = {str(base + i): [0x0F, i] for i in range(3)}
+                return {'kind': kind, 'image': {'ext': 'mmb', 'surfaces': surfaces, 'slots': slots}, 'target': [ts, 0], 'drive': (base + ts) * 2, 'how': how}
+            ext = {'ssd2': 'ssd', 'dsd': 'dsd'}[cont]
+            if not dd.geometry_is_identifiable(dd.Surface.from_json(surfaces[0]), ext) and how == 'total':
+                pass
+            return {'kind': kind, 'image': {'ext': ext, 'surfaces': surfaces}, 'target': [ts, 0], 'how': how}
         if kind == 'opus':
             tracks = rng.choice([40, 80, 35])
             nvol = rng.randint(1, 6)
@@ -179,7 +211,55 @@ class C17(CheckBase):
             out.violate('C17.crash', 'library code crashed (exit %r): %s' % (wd.code, wd.stderr[-300:].decode('latin-1')), {'kind': case['kind'], 'what': 'crash'}, case)
         return out
 
+    def run_overclaim(self, case, ctx, out):
+        """extract-unused (and the other whole-surface commands) on a surface whose catalogue over-claims."""
+        image = case['image']
+        ext = image['ext']
+        data = dfswork.render_image(image)
+        si = case['target'][0]
+        surf = dd.Surface.from_json(image['surfaces'][si])
+        drive = case.get('drive')
+        if drive is None:
+            drive = {0: 0, 1: 2}[si]
+        sb = ctx.sb
+        name = 'img.' + ext
+        sb.reset({name: data, 'out': None})
+        exe = ctx.exe('rel', 'dfs')
+        r = ctx.sk.run(sb, exe, ['dfs', '--file', name, '--show-config', '--drive', str(drive), 'extract-unused', 'out'])
+        out.add_run(r)
+        # by the documented probing rules an over-claiming total can simply mean a bigger geometry (a 40-track
+        # two-sided file read as one 80-track side): then the surface really is that big and nothing is foreign
+        import re
+        m = re.search(r'^Drive +%d: occupied, [a-z]+ density, 1 side, (\d+) tracks, (\d+) sectors per track' % drive, r['stderr'].decode('latin-1'), re.M)
+        if not m or int(m.group(1)) * int(m.group(2)) != surf.nsectors:
+            out.skip('identified-differently')
+            return
+        out.fault('overclaim-' + case['how'], True)
+        desc = {'kind': 'overclaim', 'how': case['how'], 'ext': ext}
+        what = '%s image, surface %d (%d sectors) whose catalogue claims %s: dfs --drive %d extract-unused' % (
+            ext, si, surf.nsectors, 'more sectors through the total-sectors field' if case['how'] == 'total' else 'more sectors through the HDFS flag bits', drive)
+        import os
+        foreign = []
+        total = 0
+        outdir = os.path.join(sb.root, 'out')
+        for fn in sorted(os.listdir(outdir)):
+            with open(os.path.join(outdir, fn), 'rb') as fh:
+                blob = fh.read()
+            total += len(blob)
+            for (img, side, lba, k) in dd.parse_tags(blob):
+                if img == surf.img_id and (side != surf.side or lba >= surf.nsectors):
+                    foreign.append((fn, side, lba))
+                    break
+        out.sig('overclaim', ext, case['how'], r.exit_class(), bool(foreign), r['log_hash'])
+        out.probe('overclaim-bytes-extracted', total)
+        if foreign:
+            out.violate('C17.a', '%s wrote bytes tagged %s, which lie outside that surface' % (what, foreign[:2]), dict(desc, what='extract-unused-foreign'), case)
+        r2 = ctx.sk.run(sb, exe, ['dfs', '--file', name, 'dump-sector', str(drive), str(surf.tracks - 1), str(surf.spt - 1)])
+        out.add_run(r2)
+
     def _run(self, case, ctx, out):
+        if case['kind'] == 'overclaim':
+            return self.run_overclaim(case, ctx, out)
         image = case['image']
         ext = image['ext']
         data = self.build(case)
